@@ -304,11 +304,34 @@ def scen_options(ch, params, out):
               lambda: f"({ctx()}) library kwargs {kw}\nCLI:\n{body_of(res.stdout)[:700]}\nLIB:\n{lib[:700]}", "cli_differs_from_library:" + str(flag1) + "+" + str(flag2 if j != i else None))
 
 
+def scen_three_roots(ch, params, out):
+    """three -m roots with small key sets and a merge option: CLI output == library pipeline on the same samples"""
+    from vflib import clienv
+    pool = [["k0", "k1", "k2"], ["k0", "k1", "k3"], ["k2", "k3"], ["k0"], ["k1", "k2", "k3"], ["k0", "k1", "k2", "k3"]]
+    pol = ch.choose("merge_option", ["number_2", "percent_50", "percent_70"], shard=False)
+    sets = [ch.choose(f"root{i}_keys", pool, shard=(i == 0)) for i in range(3)]
+    fs, argv, models = {}, [], {}
+    for i in range(3):
+        doc = [{k: 1 for k in sets[i]}]
+        fs[f"/vfs/r{i}.json"] = json.dumps(doc)
+        argv += ["-m", f"Root{i}", f"/vfs/r{i}.json"]
+        models[f"Root{i}"] = doc
+    argv += ["--merge", pol]
+    res = clienv.run_main(argv, fs)
+    out.info = {"argv": argv, "sets": sets}
+    if not out.check(res.status == 0, "cli_fails", lambda: f"{res.stderr[-300:]} argv={argv}", "cli_fails"):
+        return
+    lib = library_code(models, merge=[pol])
+    out.check(body_of(res.stdout) == lib + "\n", "cli_differs_from_library",
+              lambda: f"argv={argv} key sets {sets}\nCLI:\n{body_of(res.stdout)[:500]}\nLIB:\n{lib[:500]}", "cli_differs_from_library:three_roots")
+
+
 def parts(tier):
     q = tier == "quick"
     return [CH("lookup", "vflib.props.c16:scen_lookup", {"maxlen": 4 if q else 6}, shards=1, timeout=170 if q else 900, path_timeout=60, mode="CH-P"),
             CH("assembly", "vflib.props.c16:scen_assembly", {}, shards=9, timeout=170 if q else 900, path_timeout=30),
-            CH("options", "vflib.props.c16:scen_options", {}, shards=13, timeout=170 if q else 900, path_timeout=30)]
+            CH("options", "vflib.props.c16:scen_options", {}, shards=13, timeout=170 if q else 900, path_timeout=30),
+            CH("three_roots_merge", "vflib.props.c16:scen_three_roots", {}, shards=6, timeout=170 if q else 600, path_timeout=30)]
 
 
 META = {
